@@ -223,6 +223,47 @@ MUTANTS: List[Tuple[str, List[Tuple[str, str, str]], List[Tuple[str, str]]]] = [
     ('f76-context-outside-try', [(C, "        try:\n            ctx = dag_ctx.create_context_from_chart(\n                chart=self,\n                pipeline_id=pipeline_id,\n                input_kwargs=input_kwargs,\n                meta=meta if meta is not None else {},\n            )\n\n        except Exception as ex:\n            # The artifact store or an event manager of the chart could not be created: there is nobody to notify\n            return PipelineResult(pipeline_id=pipeline_id, value=None, error=ex)\n",
                                   "        ctx = dag_ctx.create_context_from_chart(\n            chart=self,\n            pipeline_id=pipeline_id,\n            input_kwargs=input_kwargs,\n            meta=meta if meta is not None else {},\n        )\n")], [('C05', 'ER-2')]),
     ('f89-broken-thread-pool-ready', [(TH, " or self._pool_executor._broken:", ":")], [('C17', 'EX-4')]),
+    # ---- round 6 of seeded changes (DESIGN 9.16)
+    ('sw4-hide-skips-unprocessed', [(S, "        for node_id in node_ids:\n            self.hide_processed_node(node_id)\n",
+                                     "        for node_id in node_ids:\n            if not self.exists_processed_node(node_id):\n                continue\n\n            self.hide_processed_node(node_id)\n")],
+     [('C09', 'SW-4'), ('C03', 'SW-4')]),
+    ('sw4-hide-stops-at-first-unprocessed', [(S, "        for node_id in node_ids:\n            self.hide_processed_node(node_id)\n",
+                                              "        for node_id in node_ids:\n            if not self.exists_processed_node(node_id, with_hidden=True):\n                return\n\n            self.hide_processed_node(node_id)\n")],
+     [('C09', 'SW-4')]),
+    ('oo11-failed-candidate-withdrawn', [(M, "                logger.debug('The %s has been succeeded', oneof_dag)\n                return\n",
+                                          "                logger.debug('The %s has been succeeded', oneof_dag)\n                return\n\n            self._started_oneof_children.discard(subgraph_node_id)\n")],
+     [('C10', 'OO-11')]),
+    ('oo11-registry-cleared-per-oneof', [(M, "                logger.debug('The %s has been succeeded', oneof_dag)\n                return\n",
+                                          "                logger.debug('The %s has been succeeded', oneof_dag)\n                self._started_oneof_children.clear()\n                return\n")],
+     [('C10', 'OO-11')]),
+    ('rc11-release-only-when-exhausted', [(M, "                else:\n                    await self.__raise_exc(error)\n\n        self._node_storage.delete_active_rec_subgraph(start_from_node_id, node_id)\n",
+                                           "                else:\n                    await self.__raise_exc(error)\n\n            self._node_storage.delete_active_rec_subgraph(start_from_node_id, node_id)\n")],
+     [('C11', 'RC-11'), ('C02', 'RC-11')]),
+    ('rc11-release-dropped', [(M, "        self._node_storage.delete_active_rec_subgraph(start_from_node_id, node_id)\n\n        # The data belongs", "        # The data belongs")],
+     [('C11', 'RC-11')]),
+    ('bn6-serial-only-in-registry', [(N, "    class_name = registry_name\n", ""), (N, "    globals()[class_name] = created_node\n", "    globals()[registry_name] = created_node\n")],
+     [('C15', 'BN-6')]),
+    ('bn7-annotations-aliased', [(N, "    class_method.__doc__ = process_method.__doc__\n", "    class_method.__doc__ = process_method.__doc__\n    class_method.__annotations__ = process_method.__annotations__\n")],
+     [('C16', 'BN-7'), ('C15', 'BN-7')]),
+    ('fs9-hidden-leftover-removed', [(F, "                serializer.dump(data, file)\n", "                serializer.dump(data, file)\n\n            path.with_name(f'.{path.name}').unlink(missing_ok=True)\n")],
+     [('C18', 'FS-9')]),
+    ('fs9-lookup-by-stem', [(F, "        return [path for path in paths if path.is_file()]", "        return [path for path in directory.iterdir() if path.is_file() and path.stem == str(node_id)]")],
+     [('C18', 'FS-9')]),
+    ('pb1-save-before-publish', [(M, "            logger.debug('Save the result \"%s\" for the node %s', result, node_id)\n            self._node_storage.set_node_result(node_id, result)\n\n            # TODO: Needs to reorganize saving policy for artifact storage\n            await self.ctx.save_node_result(node_id, result)\n",
+                                  "            await self.ctx.save_node_result(node_id, result)\n\n            logger.debug('Save the result \"%s\" for the node %s', result, node_id)\n            self._node_storage.set_node_result(node_id, result)\n")],
+     [('C02', 'PB-1'), ('C03', 'PB-1')]),
+    ('ev3-generator-skips-after-first', [(E, "            if callback:\n                await callback(ctx=self, **kwargs)\n", "            if callback:\n                await callback(ctx=self, **kwargs)\n                break\n")],
+     [('C14', 'EV-3')]),
+    ('ev3-payload-dropped', [(E, "                await callback(ctx=self, **kwargs)\n", "                await callback(ctx=self)\n")], [('C14', 'EV-3')]),
+    ('ev1-complete-gets-a-copy', [(C, "            await ctx.emit_on_pipeline_complete(result=result)\n            return result\n\n        except",
+                                   "            await ctx.emit_on_pipeline_complete(result=PipelineResult(value=result.value, pipeline_id=pipeline_id, error=None))\n            return result\n\n        except")],
+     [('C14', 'EV-1')]),
+    ('er2-error-result-loses-exception', [(C, "            result = PipelineResult(pipeline_id=pipeline_id, value=None, error=ex)\n            await ctx.emit_on_pipeline_complete",
+                                           "            result = PipelineResult(pipeline_id=pipeline_id, value=None, error=RuntimeError(str(ex)))\n            await ctx.emit_on_pipeline_complete")],
+     [('C05', 'ER-2')]),
+    ('vl4-only-first-subgraph-validated', [(B, "        for _, dest in self._recurrent_sub_graphs:\n            node = self._node_map[dest]\n",
+                                            "        for _, dest in self._recurrent_sub_graphs[:1]:\n            node = self._node_map[dest]\n")],
+     [('C16', 'VL-4')]),
 ]
 
 ALL_PROPS = [f'C{n:02d}' for n in range(2, 21)]
@@ -289,6 +330,15 @@ BENIGN: List[Tuple[str, List[Tuple[str, str, str, bool]]]] = [
     ('registry-deque', [(M, "    _coro_tasks: t.List[asyncio.Task] = field(default_factory=list)", "    _coro_tasks: t.Deque[asyncio.Task] = field(default_factory=deque)", False),
                         (M, "import asyncio\n", "import asyncio\nfrom collections import deque\n", False)]),
     ('unwrap-generic-chain-recursively', [(V, "        while vars(node).get('__generic_class__') is not None:\n            node = node.__generic_class__\n\n        file_path", "        generic_class = vars(node).get('__generic_class__')\n        if generic_class is not None:\n            return GraphConfigImpl._get_node_relative_path(generic_class)\n\n        file_path", False)]),
+    # ---- round 6
+    ('rc11-release-after-handover-cleanup', [(M, "        self._node_storage.delete_active_rec_subgraph(start_from_node_id, node_id)\n\n        # The data belongs to the subgraph that has just been finished. If the start node is executed again\n        # (an outer subgraph re-iterates), it must not get the data of the previous execution.\n        self._additional_data.pop(start_from_node_id, None)\n",
+                                              "        # The data belongs to the subgraph that has just been finished. If the start node is executed again\n        # (an outer subgraph re-iterates), it must not get the data of the previous execution.\n        self._additional_data.pop(start_from_node_id, None)\n\n        self.__release_rec_subgraph(start_from_node_id, node_id)\n\n    def __release_rec_subgraph(self, start_from_node_id: NodeId, node_id: NodeId) -> None:\n        self._node_storage.delete_active_rec_subgraph(start_from_node_id, node_id)\n", False)]),
+    ('fs9-scratch-name-with-tmp-suffix', [(F, "        try:\n            with path.open(mode, encoding=encoding) as file:  # noqa: ASYNC101\n                serializer.dump(data, file)\n        except BaseException:\n            # A failed save must not leave a file behind, otherwise the key looks saved\n            path.unlink(missing_ok=True)\n            raise\n",
+                                           "        partial = path.with_name(f'{path.name}.tmp')\n\n        try:\n            with partial.open(mode, encoding=encoding) as file:  # noqa: ASYNC101\n                serializer.dump(data, file)\n\n            partial.replace(path)\n        except BaseException:\n            # A failed save must not leave a file behind, otherwise the key looks saved\n            partial.unlink(missing_ok=True)\n            raise\n", False)]),
+    ('oo11-registry-read-only-helper', [(M, "                u in self._started_oneof_children\n", "                u in frozenset(self._started_oneof_children)\n", False)]),
+    ('sw4-hide-via-loop-over-stores', [(S, "            self.hide_processed_node(node_id)\n            self.hide_node_result(node_id)\n            self.hide_switch_result(node_id)\n",
+                                        "            for store in (self.processed_nodes, self.node_results, self.switch_results):\n                store.hide(node_id)\n", False)]),
+    ('bn7-annotations-copied', [(N, "    class_method.__doc__ = process_method.__doc__\n", "    class_method.__doc__ = process_method.__doc__\n    class_method.__annotations__ = dict(getattr(process_method, '__annotations__', {}))\n", False)]),
 ]
 
 
@@ -420,9 +470,18 @@ def _run_one(args) -> dict:
         from sa.report import known_index, load_known
         known = known_index(load_known())
         out = {'kind': kind, 'id': mid, 'status': 'ok', 'results': {}}
+        import signal
+
+        def _too_long(signum, frame):
+            raise TimeoutError('the check did not finish within 600 s')
+        signal.signal(signal.SIGALRM, _too_long)
         for pid in props:
             try:
-                ctx, coll, instances = chk.run_property(pid, 'quick', tmp)
+                signal.alarm(600)
+                try:
+                    ctx, coll, instances = chk.run_property(pid, 'quick', tmp)
+                finally:
+                    signal.alarm(0)
             except AnalysisError as ex:
                 out['results'][pid] = {'undecided': str(ex)[:300]}
                 continue
